@@ -146,3 +146,106 @@
         for f in failures.iter().take(5) { println!("FAILING INPUT: {}", f); }
         assert!(failures.is_empty());
     }
+
+    /// C12, parts of speech that exist only in a user dictionary: user lexicons with three new parts of speech, declared and FIRST
+    /// MENTIONED (in inline split references of a compound row) in every order, compiled against the system dictionary and loaded;
+    /// every user word must report dictionary 1 and exactly its declared part-of-speech strings, system words dictionary 0
+    #[test]
+    fn verif_oracle_user_pos_orders() {
+        if !want("C12") { return; }
+        let names = ["ゑあ", "ゑい", "ゑう"];
+        let reads = ["ヱア", "ヱイ", "ヱウ"];
+        let poss = [["甲", "一", "*", "*", "*", "*"], ["乙", "二", "*", "*", "*", "*"], ["丙", "三", "*", "*", "*", "*"]];
+        let perms: [[usize; 3]; 6] = [[0, 1, 2], [0, 2, 1], [1, 0, 2], [1, 2, 0], [2, 0, 1], [2, 1, 0]];
+        let mut failures = Vec::new();
+        let mut cases = 0;
+        for decl in perms.iter() {
+            for mention in perms.iter() {
+                for compound_first in [true, false] {
+                    for with_system_pos_row in [true, false] {
+                        let word_row = |i: usize| format!("{},6,6,2816,{},{},{},{},*,A,*,*,*,*\n", names[i], names[i], poss[i].join(","), reads[i], names[i]);
+                        let inline = |i: usize| format!("{},{},{}", names[i], poss[i].join(","), reads[i]);
+                        let compound = format!("ゑあゑいゑう,6,6,2000,ゑあゑいゑう,複合,語,*,*,*,*,ヱ,ゑあゑいゑう,*,C,\"{}/{}/{}\",*,*,*\n", inline(mention[0]), inline(mention[1]), inline(mention[2]));
+                        let mut lex = String::new();
+                        if compound_first { lex.push_str(&compound); }
+                        if with_system_pos_row { lex.push_str("ゑゑ,8,8,2914,ゑゑ,名詞,普通名詞,一般,*,*,*,ヱヱ,ゑゑ,*,A,*,*,*,*\n"); }
+                        for &i in decl.iter() { lex.push_str(&word_row(i)); }
+                        if !compound_first { lex.push_str(&compound); }
+                        cases += 1;
+                        let r = std::panic::catch_unwind(|| {
+                            let mut cfgb = ConfigTestSupport::new();
+                            let mut dic = DictBuilder::new_system();
+                            dic.read_conn(super::super::MATRIX_10_10).unwrap();
+                            dic.read_lexicon(SYSTEM_LEX).unwrap();
+                            dic.resolve().unwrap();
+                            dic.compile(&mut cfgb.make_system()).unwrap();
+                            let sys = JapaneseDictionary::from_cfg(&cfgb.config()).unwrap();
+                            let mut ud = DictBuilder::new_user(&sys);
+                            ud.read_lexicon(lex.as_bytes()).unwrap();
+                            ud.resolve().unwrap();
+                            ud.compile(&mut cfgb.add_user()).unwrap();
+                            let jd = JapaneseDictionary::from_cfg(&cfgb.config()).unwrap();
+                            let mut bad = Vec::new();
+                            let mut check = |q: &str, dic: i32, pos: Vec<String>| {
+                                let mut ms = MorphemeList::empty(&jd);
+                                match ms.lookup(q, InfoSubset::all()) {
+                                    Ok(_) => {
+                                        let got: Vec<(i32, Vec<String>)> = ms.iter().map(|m| (m.dictionary_id(), m.part_of_speech().to_vec())).collect();
+                                        if !got.contains(&(dic, pos.clone())) { bad.push(format!("{:?} reports (dictionary, part of speech) {:?}, declared ({}, {:?})", q, got, dic, pos)); }
+                                    }
+                                    Err(e) => bad.push(format!("lookup of {:?} fails: {:?}", q, e)),
+                                }
+                            };
+                            for i in 0..3 { check(names[i], 1, poss[i].iter().map(|x| x.to_string()).collect()); }
+                            check("ゑあゑいゑう", 1, ["複合", "語", "*", "*", "*", "*"].iter().map(|x| x.to_string()).collect());
+                            check("京都", 0, ["名詞", "固有名詞", "地名", "一般", "*", "*"].iter().map(|x| x.to_string()).collect());
+                            bad
+                        });
+                        match r {
+                            Ok(bad) => for b in bad { if failures.len() < 30 { failures.push(format!("user lexicon {:?}: {}", lex, b)); } },
+                            Err(_) => if failures.len() < 30 { failures.push(format!("user lexicon {:?}: compile / load / lookup panics", lex)); },
+                        }
+                    }
+                }
+            }
+        }
+        println!("verif_oracle_user_pos_orders: {} user lexicons, {} failures", cases, failures.len());
+        for f in failures.iter().take(5) { println!("FAILING INPUT: {}", f); }
+        assert!(failures.is_empty());
+    }
+
+    /// C04, many layers: a system dictionary and 14 user dictionaries; every dictionary holds the shared key ゐゐ and a key of its own.
+    /// Prefix lookup at offset 0 of "ゐゐ" + own key material must report the entries of EVERY layer with its dictionary number.
+    #[test]
+    fn verif_oracle_lookup_many_layers() {
+        if !want("C04") { return; }
+        let mut cfgb = ConfigTestSupport::new();
+        let mut dic = DictBuilder::new_system();
+        dic.read_conn(super::super::MATRIX_10_10).unwrap();
+        dic.read_lexicon(SYSTEM_LEX).unwrap();
+        dic.resolve().unwrap();
+        dic.compile(&mut cfgb.make_system()).unwrap();
+        let sys = JapaneseDictionary::from_cfg(&cfgb.config()).unwrap();
+        let marks: Vec<char> = "あいうえおかきくけこさしすせ".chars().collect();
+        for k in 0..14usize {
+            let lex = format!("ゐゐ,8,8,2914,ゐゐ,名詞,普通名詞,一般,*,*,*,ヰヰ,ゐゐ,*,A,*,*,*,*\nゐゐ{m},8,8,2914,ゐゐ{m},名詞,普通名詞,一般,*,*,*,ヰヰ,ゐゐ{m},*,A,*,*,*,*\n", m = marks[k]);
+            let mut ud = DictBuilder::new_user(&sys);
+            ud.read_lexicon(lex.as_bytes()).unwrap();
+            ud.resolve().unwrap();
+            ud.compile(&mut cfgb.add_user()).unwrap();
+        }
+        let jd = JapaneseDictionary::from_cfg(&cfgb.config()).unwrap();
+        let mut failures = Vec::new();
+        for k in 0..14usize {
+            let text = format!("ゐゐ{}", marks[k]);
+            let mut got: Vec<(u8, u32, usize)> = jd.lexicon().lookup(text.as_bytes(), 0).map(|e| (e.word_id.dic(), e.word_id.word(), e.end)).collect();
+            got.sort();
+            let mut want_ids: Vec<(u8, u32, usize)> = (1..=14u8).map(|d| (d, 0u32, 6usize)).collect();
+            want_ids.push(((k + 1) as u8, 1, 9));
+            want_ids.sort();
+            if got != want_ids && failures.len() < 10 { failures.push(format!("15 layered dictionaries, lookup({:?}, 0) = (dictionary, word, end) {:?}, expected {:?}", text, got, want_ids)); }
+        }
+        println!("verif_oracle_lookup_many_layers: 14 texts, {} failures", failures.len());
+        for f in failures.iter().take(5) { println!("FAILING INPUT: {}", f); }
+        assert!(failures.is_empty());
+    }
